@@ -1,0 +1,130 @@
+//go:build verif
+
+// Contracts for the Badger adapter, checked by /verif/kbv (build tag "verif"). Comments only.
+// The Badger client is modelled by ghost counters: bd_writes buffered writes of the open
+// transaction, bd_commits / bd_discards calls; bd_missing / bd_failed describe the last Get.
+
+package badger
+
+//@ ghost bd_writes Int
+//@ ghost bd_commits Int
+//@ ghost bd_discards Int
+//@ ghost bd_missing Bool
+//@ ghost bd_failed Bool
+
+// ---- assumed contract of the client library ----
+// Get reports a missing key with the sentinel itself (not wrapped); its other errors are foreign
+//@ func @github.com/dgraph-io/badger.(*Txn).Get(key) (item, err)
+//@   assumed
+//@   modifies ghost.bd_missing ghost.bd_failed
+//@   ensures [found-or-not] bd_failed == (err != nil) && bd_missing == (err == badger.ErrKeyNotFound) && (err == nil ==> item != nil) && badger.ErrKeyNotFound != nil
+//@   ensures [not-found-is-the-sentinel] err != nil ==> err_is(err, badger.ErrKeyNotFound) == (err == badger.ErrKeyNotFound)
+//@   ensures [foreign-error] err != nil ==> !err_is(err, storage.ErrCASFailed) && !err_is(err, storage.ErrKeyNotFound) && !err_is(err, storage.ErrUncertainResult)
+//@ func @github.com/dgraph-io/badger.(*Txn).Set(key, val) (err)
+//@   assumed
+//@   modifies ghost.bd_writes
+//@   ensures [buffered] err == nil ==> bd_writes == old(bd_writes)+1
+//@   ensures [foreign-error] err != nil ==> bd_writes == old(bd_writes) && !err_is(err, storage.ErrCASFailed) && !err_is(err, storage.ErrUncertainResult)
+//@ func @github.com/dgraph-io/badger.(*Txn).SetEntry(e) (err)
+//@   assumed
+//@   modifies ghost.bd_writes
+//@   ensures [buffered] err == nil ==> bd_writes == old(bd_writes)+1
+//@   ensures [foreign-error] err != nil ==> bd_writes == old(bd_writes) && !err_is(err, storage.ErrCASFailed) && !err_is(err, storage.ErrUncertainResult)
+//@ func @github.com/dgraph-io/badger.(*Txn).Delete(key) (err)
+//@   assumed
+//@   modifies ghost.bd_writes
+//@   ensures [buffered] err == nil ==> bd_writes == old(bd_writes)+1
+//@   ensures [foreign-error] err != nil ==> bd_writes == old(bd_writes) && !err_is(err, storage.ErrCASFailed) && !err_is(err, storage.ErrUncertainResult)
+//@ func @github.com/dgraph-io/badger.(*Txn).Commit() (err)
+//@   assumed
+//@   modifies ghost.bd_commits
+//@   ensures [counted] bd_commits == old(bd_commits)+1
+//@   ensures [foreign-error] err != nil ==> !err_is(err, storage.ErrCASFailed) && !err_is(err, storage.ErrUncertainResult) && !err_is(err, storage.ErrKeyNotFound)
+//@ func @github.com/dgraph-io/badger.(*Txn).Discard()
+//@   assumed
+//@   modifies ghost.bd_discards
+//@   ensures [counted] bd_discards == old(bd_discards)+1
+//@ func @github.com/dgraph-io/badger.NewEntry(key, value) (e)
+//@   assumed
+//@   pure
+//@ func @github.com/dgraph-io/badger.(*Entry).WithTTL(dur) (e2)
+//@   assumed
+//@   pure
+// Value hands the stored value to the callback and returns what the callback returns (trusted: the
+// callback of CAS is verified on its own below)
+//@ func @github.com/dgraph-io/badger.(*Item).Value(fn) (err)
+//@   assumed
+//@   pure
+//@ func @github.com/dgraph-io/badger.(*Item).ValueCopy(dst) (val, err)
+//@   assumed
+//@   pure
+//@ func @github.com/dgraph-io/badger.(*Item).Version() (v)
+//@   assumed
+//@   pure
+
+//@ pred wf_batch(b) = b != nil && b.txn != nil
+
+// ---- the operations buffered by a batch: each is a closure run by Commit ----
+// An operation writes into the batch's one transaction at most once, only when its condition
+// holds, never commits or discards, and reports a refused condition -- a missing key included --
+// as a failed condition.
+
+// the comparison CAS hands to Item.Value: passes exactly when the stored value equals the expectation
+//@ func (*batch).CAS$1$1(val) (err)
+//@   props C11 C12
+//@   ensures [passes-exactly-on-equal-bytes] (err == nil) == bytes_eq(oldVal, val)
+//@   ensures [refusal-is-a-failed-condition] err != nil ==> err_is(err, storage.ErrCASFailed) && !err_is(err, storage.ErrUncertainResult)
+
+//@ func (*batch).CAS$1() (err)
+//@   props C11 C12
+//@   requires wf_batch(b)
+//@   modifies inferred:(*batch).CAS$1
+//@   ensures [missing-key-is-a-failed-condition] bd_missing ==> err_is(err, storage.ErrCASFailed) && bd_writes == old(bd_writes)
+//@   ensures [success-writes-once] err == nil ==> bd_writes == old(bd_writes)+1 && !bd_failed
+//@   ensures [failure-writes-nothing] err != nil ==> bd_writes == old(bd_writes)
+//@   ensures [other-read-errors-are-not-conditions] bd_failed && !bd_missing ==> !err_is(err, storage.ErrCASFailed)
+//@   ensures [one-transaction] bd_commits == old(bd_commits) && bd_discards == old(bd_discards)
+
+//@ func (*batch).PutIfNotExist$1() (err)
+//@   props C11 C12
+//@   requires wf_batch(b)
+//@   modifies inferred:(*batch).PutIfNotExist$1
+//@   ensures [present-key-is-refused] !bd_failed ==> err != nil && bd_writes == old(bd_writes)
+//@   ensures [success-writes-once] err == nil ==> bd_writes == old(bd_writes)+1 && bd_missing
+//@   ensures [failure-writes-nothing] err != nil ==> bd_writes == old(bd_writes)
+//@   ensures [other-read-errors-are-not-conditions] bd_failed && !bd_missing ==> !err_is(err, storage.ErrCASFailed)
+//@   ensures [one-transaction] bd_commits == old(bd_commits) && bd_discards == old(bd_discards)
+
+//@ func (*batch).Put$1() (err)
+//@   props C11 C12
+//@   requires wf_batch(b)
+//@   modifies inferred:(*batch).Put$1
+//@   ensures [writes-once-or-fails] (err == nil ==> bd_writes == old(bd_writes)+1) && (err != nil ==> bd_writes == old(bd_writes) && !err_is(err, storage.ErrCASFailed))
+//@   ensures [one-transaction] bd_commits == old(bd_commits) && bd_discards == old(bd_discards)
+
+//@ func (*batch).Del$1() (err)
+//@   props C11 C12
+//@   requires wf_batch(b)
+//@   modifies inferred:(*batch).Del$1
+//@   ensures [writes-once-or-fails] (err == nil ==> bd_writes == old(bd_writes)+1) && (err != nil ==> bd_writes == old(bd_writes) && !err_is(err, storage.ErrCASFailed))
+//@   ensures [one-transaction] bd_commits == old(bd_commits) && bd_discards == old(bd_discards)
+
+// the buffered operations as Commit sees them
+//@ func dyn:func()error() (err)
+//@   assumed
+//@   modifies ghost.bd_writes ghost.bd_missing ghost.bd_failed
+//@   ensures [failure-writes-nothing] err != nil ==> bd_writes == old(bd_writes)
+//@   ensures [one-transaction] bd_commits == old(bd_commits) && bd_discards == old(bd_discards)
+
+// Commit is all-or-nothing: the transaction is committed exactly once, after every buffered
+// operation has succeeded; the first failing operation ends the batch with that error and the
+// transaction is discarded without a commit
+//@ func (*batch).Commit(ctx) (err)
+//@   props C11 C12
+//@   nosafety
+//@   requires wf_batch(b)
+//@   modifies inferred:(*batch).Commit ghost.bd_writes ghost.bd_missing ghost.bd_failed ghost.bd_commits ghost.bd_discards
+//@   ensures [at-most-one-commit] bd_commits == old(bd_commits) || bd_commits == old(bd_commits)+1
+//@   ensures [success-means-committed] err == nil ==> bd_commits == old(bd_commits)+1
+//@   ensures [always-discarded-once] bd_discards == old(bd_discards)+1
+//@   loop 0 invariant [nothing-committed-before-every-operation-ran] bd_commits == old(bd_commits) && bd_discards == old(bd_discards) && wf_batch(b)
